@@ -373,7 +373,7 @@ class Ctx(object):
             return 1
         if verdict == "inconclusive":
             print("INCONCLUSIVE property=%s reason=%s" % (
-                self.pid, "; ".join(floor_misses + [str(r)[:300] for r in self.inconclusive[:5]])))
+                self.pid, "; ".join(floor_misses + [str(r)[-700:] for r in self.inconclusive[:3]])))
             return 2
         return 0
 
@@ -412,6 +412,8 @@ def main(argv):
             mod.worker(ctx, job)
         except Inconclusive as e:
             ctx.inconclusive_case(str(e))
+        except Exception:
+            ctx.inconclusive_case("harness error in worker: ..." + traceback.format_exc()[-900:])
         with open(of + ".tmp", "w") as f:
             json.dump(ctx.to_json(), f, default=repr)
         os.replace(of + ".tmp", of)
